@@ -7,9 +7,9 @@ for d in sorted(glob.glob('/verif/seeded/*/meta.json')):
     m = json.load(open(d))
     c, mi = [], []
     for k, v in m['detection'].items():
-        if 'after strengthening' in v:
+        if 'after strengthening' in v or v.startswith('MISSED at first'):
             c.append(f"{k} (after strengthening)")
-        elif v.startswith('missed'):
+        elif v.startswith('missed') or v.startswith('rc=0'):
             mi.append(k)
         else:
             c.append(k)
